@@ -18,7 +18,7 @@ func (ex *Exec) paramNames(fn *ssa.Function, args []Value, res Value, haveRes bo
 			names[p.Name()] = args[i]
 		}
 	}
-	base, haveBase := loadSignatureBaseline()[strings.ReplaceAll(fn.String(), modulePrefix+"/", "")]
+	base, haveBase := loadSignatureBaseline()[canonFn(strings.ReplaceAll(fn.String(), modulePrefix+"/", ""))]
 	if haveBase && len(base.Params) == len(fn.Params) {
 		// renamed parameters: the name the contract was written against still denotes the same position
 		for i, old := range base.Params {
@@ -74,7 +74,7 @@ func (ex *Exec) freeVarNames(st *State, fr *Frame, names map[string]Value) map[s
 		}
 	}
 	// renamed captured variables: the recorded names denote the same binding positions
-	if base, ok := loadSignatureBaseline()[strings.ReplaceAll(fr.Fn.String(), modulePrefix+"/", "")]; ok && len(base.FreeVars) == len(fr.Fn.FreeVars) {
+	if base, ok := loadSignatureBaseline()[canonFn(strings.ReplaceAll(fr.Fn.String(), modulePrefix+"/", ""))]; ok && len(base.FreeVars) == len(fr.Fn.FreeVars) {
 		for i, old := range base.FreeVars {
 			if _, taken := names[old]; taken || i >= len(fr.Bind) {
 				continue
@@ -531,7 +531,7 @@ func (ex *Exec) loopNames(st *State, fr *Frame, lp *Loop) map[string]Value {
 			names[p.Name()] = v
 		}
 	}
-	if base, ok := loadSignatureBaseline()[strings.ReplaceAll(fr.Fn.String(), modulePrefix+"/", "")]; ok && len(base.Params) == len(fr.Fn.Params) {
+	if base, ok := loadSignatureBaseline()[canonFn(strings.ReplaceAll(fr.Fn.String(), modulePrefix+"/", ""))]; ok && len(base.Params) == len(fr.Fn.Params) {
 		for i, old := range base.Params {
 			if _, taken := names[old]; !taken && old != "" && old != "_" {
 				if cur, ok := names[fr.Fn.Params[i].Name()]; ok {
@@ -566,7 +566,7 @@ func (ex *Exec) loopNames(st *State, fr *Frame, lp *Loop) map[string]Value {
 		}
 	}
 	// renamed locals: the names the invariants were written against denote the same positions
-	if base, ok := loadSignatureBaseline()[strings.ReplaceAll(fr.Fn.String(), modulePrefix+"/", "")]; ok {
+	if base, ok := loadSignatureBaseline()[canonFn(strings.ReplaceAll(fr.Fn.String(), modulePrefix+"/", ""))]; ok {
 		curAllocs, curPhis := localNames(fr.Fn)
 		alias := func(old, cur []string) {
 			if len(old) != len(cur) {
@@ -949,7 +949,7 @@ func eventMatches(e *Event, pat string) bool {
 	if pat == "" {
 		return false
 	}
-	return nameMatches(strings.ReplaceAll(e.Callee, modulePrefix+"/", ""), pat)
+	return nameMatches(canonFn(strings.ReplaceAll(e.Callee, modulePrefix+"/", "")), pat)
 }
 
 // nameMatches is the pattern language of temporal clauses: "=x" exact, otherwise suffix match, where a method's
